@@ -31,8 +31,8 @@ FUNCS = {
         locals={'ident': 'List[IdentElem]'},
         modifies=[],
         ensures=[
-            # the identity is (source, creation time, sequence number) and, for fragments only, offset and total length
-            ('identity_components', 'result == ident_of(self)', ['C10']),
+            # the identity is (source, creation time, sequence number) and, for fragments only, offset, total length and payload length
+            ('identity_components', 'result == ident_of(self)', ['C10', 'C06']),
         ],
     ),
     # ------------------------------------------------------------------------------------------------
@@ -72,7 +72,9 @@ FUNCS = {
         requires=[('has_primary', 'ctr.bundle.primary is not None and unwrap(ctr.bundle.primary).bundle_flags >= 0', []),
                   # (wire assumption) the CRC type of every decoded block is one of the three defined values; an unknown
                   # value makes check_crc raise KeyError out of this handler: the bundle is not processed either
-                  ('crc_types_known', 'crc_types_known(ctr.bundle)', [])],
+                  ('crc_types_known', 'crc_types_known(ctr.bundle)', []),
+                  # (as decoded from the wire, or as the reassembly step builds it) the payload block carries its data
+                  ('payload_data_present', 'implies(contains(ctr._block_num, 1), lookup(ctr._block_num, 1).btsd is not None)', [])],
         modifies=['pkt:PrimaryBlock.crc_value', 'pkt:CanonicalBlock.crc_value', 'pkt:CanonicalBlock.btsd',
                   'Agent._seen_bundle_ident', 'Agent._fwd_queue', 'Ctr.actions', 'Ctr.status_reason', 'Ctr.route', 'Ctr.sender',
                   'ghost.finished', 'ghost.sched_send', 'ghost.consumed', 'ghost.step_failed'],
@@ -94,7 +96,7 @@ FUNCS = {
             ('repeat_ignored',
              'implies(old(contains(self._seen_bundle_ident, ident_of(ctr))), '
              'self._seen_bundle_ident == old(self._seen_bundle_ident) and self._fwd_queue == old(self._fwd_queue) and '
-             'ctr.actions == old(ctr.actions) and ghost.finished == old(ghost.finished))', ['C10']),
+             'ctr.actions == old(ctr.actions) and ghost.finished == old(ghost.finished))', ['C10', 'C06']),
             ('identity_recorded',
              'implies(old(crc_all_valid(ctr.bundle)) and not is_own(self, ctr), contains(self._seen_bundle_ident, ident_of(ctr)))',
              ['C10']),
